@@ -44,6 +44,28 @@ def replay_search_failure(ck, B, h, N):
         ck.inconclusive.append(f'{h.name} FAILED ({h.failed_checks[:3]}) but the decoded case (zone {z.cmd()}, civil count {c}) does not reproduce natively: harness/stub contract problem')
 
 
+def playback_violation(ck, B, h):
+    """generic native replay: the harness itself, run natively on the counterexample's concrete values"""
+    vecs = B.playback(h)
+    if not vecs:
+        ck.inconclusive.append(f'{h.name} FAILED ({h.failed_checks[:3]}); concrete playback produced no values')
+        return
+    ok, msg = engb.native_playback(B, h, vecs)
+    if ok:
+        ck.violation(f'{h.name} ({h.meaning[:160]}): natively, on the solver\'s counterexample, {msg}', {'kind': 'kani-playback', 'harness': h.name, 'features': h.features, 'unsafe': h.unsafe, 'vecs': vecs})
+    else:
+        ck.inconclusive.append(f'{h.name} FAILED ({h.failed_checks[:3]}) but the counterexample does not reproduce natively: {msg}')
+
+
+def replay_playback(ck, case):
+    c = case['case']
+    B = engb.EngineB(ck)
+    h = H(c['harness'], features=c.get('features', 'default'), unsafe=c.get('unsafe', False))
+    ok, msg = engb.native_playback(B, h, c['vecs'])
+    print('native playback:', ok, msg)
+    return 1 if ok else 0
+
+
 def run_harnesses(ck, hs, on_fail=None):
     B = engb.EngineB(ck)
     B.run(hs)
@@ -51,6 +73,8 @@ def run_harnesses(ck, hs, on_fail=None):
         if h.verdict == 'FAILED':
             if on_fail:
                 on_fail(B, h)
+            elif h.playback_ok:
+                playback_violation(ck, B, h)
             else:
                 ck.inconclusive.append(f'{h.name} FAILED: {h.failed_checks[:4]} (no native replay for this harness; unresolved)')
     ck.samples += [{'harness': h.name, 'features': h.features, 'verdict': h.verdict, 'meaning': h.meaning, 'seconds': round(h.secs, 1)} for h in hs]
